@@ -300,21 +300,29 @@ impl<'a> Parser<'a> {
         // consume string token
         self.advance();
 
-        // read the string, skipping any escape sequences
-        let mut b = value.chars().skip(1);
+        // read the string in a single pass, replacing every escape sequence
+        // with its actual (single-char) value
         let mut s = String::with_capacity(value.len());
-        for ch in value.chars() {
-            let next = b.next();
-            if ch == '\\' && (next == Some('"') || next == Some('\\')) {
+        let mut chars = value.chars();
+        while let Some(ch) = chars.next() {
+            if ch != '\\' {
+                s.push(ch);
                 continue;
             }
 
-            s.push(ch);
+            match chars.next() {
+                Some('"') => s.push('"'),
+                Some('\\') => s.push('\\'),
+                Some('n') => s.push('\n'),
+                Some('t') => s.push('\t'),
+                // not an escape sequence we know: keep it as it was written
+                Some(other) => {
+                    s.push('\\');
+                    s.push(other);
+                }
+                None => s.push('\\'),
+            }
         }
-
-        // Since program came from user input
-        // We have to replace escape sequences with their actual (single-char) value
-        s = s.replace("\\n", "\n").replace("\\t", "\t");
         Expr::String { value: s }
     }
 
